@@ -195,6 +195,27 @@ CHECKS.update({
 NOT_YET = {
 }
 
+# what later rounds added to each check (appended to the level text)
+ADDED = {
+    "C02": "Also: the application withdrawing a request (held back or in flight) as a fault - the others must not notice.",
+    "C03": "Also: a library-generated Block2 follow-up as the CON under test, responses to an older request, the tuning handed over as a "
+           "TransportTuning subclass, and a CON that had to wait behind two requests answered in turn.",
+    "C05": "Also: a conforming server that states its own larger SZX in its 2.31s; later blocks refused (4.08 / 5.03) or answered without Block2.",
+    "C06": "Also: empty and double-size non-final continuations; transfers that differ only in Request-Tag or Accept.",
+    "C09": "Also: observable resources (declined / accepted registration) x every outcome, No-Response x outcomes, and neighbours while the "
+           "acknowledgement of a separate response is lost for good.",
+    "C10": "Also: the transport tuning's reliability preference (class and instance) x multicast destinations.",
+    "C11": "Also: every rejected forgery is followed by the genuine message on the same recipient; foreign contexts include absent vs empty ID "
+           "context and another salt, for requests and responses.",
+    "C12": "Also: state lost for real - a file-backed context accepts 1-3 requests, the process dies, after reload nothing is accepted before a fresh Echo exchange.",
+    "C15": "Also: elective options in Ping / Release / Abort and a critical option behind an elective one; a displaced connection.",
+    "C16": "Also: the destination (scheme, host, port) of every accepted authority; sub-delims, ':' and '@' standing unescaped in segments.",
+    "C17": "Also: every Uri-Path-Abbrev value routed like the spelled-out path over six .well-known trees (nested sites included).",
+    "C18": "Also: an observation whose first notification is block-wise, and consumers that subscribe only after the shutdown (errback and async iteration).",
+    "C19": "Also: a request answered with an error leaves the served tree unchanged (no left-over spool files).",
+    "C20": "Also: values that need quoting in lookup results (double quote, trailing backslash), an update that sets an explicit base, conjunctive lookup filters.",
+}
+
 
 def main():
     props = [json.loads(l) for l in open(os.path.join(HERE, "properties.jsonl"))]
@@ -207,6 +228,8 @@ def main():
         if pid not in built:
             continue
         cat, tech, text, note, ref = CHECKS[pid]
+        if pid in ADDED:
+            text = text + " " + ADDED[pid]
         checks.append({
             "property_id": pid,
             "quick_cmd": "./check %s --tier quick" % pid,
